@@ -835,12 +835,16 @@ func simC03Laws(c *Ctx) {
 				u.normalizeCollapsed()
 			}
 			pop = append(pop, mixed{u, u.Build()})
-			if near := c10NearMiss(c, m.d.T); near != nil {
+			near := m.d.T
+			for depth := 0; depth < 2; depth++ { // one part of unknown type, then two
+				if near = c10NearMiss(c, near); near == nil {
+					break
+				}
 				d := genValue(c, near, 2, GenOpts{Null: true, MaxLen: 2})
 				if d.St == StKnown {
 					stripSetMarks(d)
 					if pan := catch(func() { pop = append(pop, mixed{d, d.Build()}) }); pan != nil {
-						continue // (typed members next to placeholder members that the constructors refuse)
+						break // (typed members next to placeholder members that the constructors refuse)
 					}
 					c.Probe("c03.weakened-twin")
 				}
@@ -883,6 +887,14 @@ func simC03Laws(c *Ctx) {
 		observe(c, eq, "Value.Equals")
 		if fp(eq) != fp(eq2) {
 			c.Fail("C03", "equals-asymmetric", "equals-asymmetric:mixed", "Equals is not symmetric: %s.Equals(%s) = %s but the converse is %s", a.d, b.d, safeGoString(eq), safeGoString(eq2))
+		}
+		nullable := func(d *VDesc) bool { return d.St == StUnknown && d.T.K != KDynamic && (d.Ref == nil || !d.Ref.NotNull) }
+		if nullable(a.d) && nullable(b.d) && eq.IsKnown() {
+			// both may turn out to be null, and any two nulls are equal: nothing can be known to tell them apart
+			if ue, _ := eq.Unmark(); ue.False() {
+				c.Fail("C03", "nulls-unequal", "nullable-unknowns-unequal", "%s and %s may both turn out to be null (any two nulls are equal), yet Equals is known to be False", a.d, b.d)
+			}
+			c.Probe("c03.two-nullable-unknowns")
 		}
 		if ra, rb := a.v.RawEquals(b.v), b.v.RawEquals(a.v); ra != rb {
 			c.Fail("C03", "rawequals-asymmetric", "rawequals-asymmetric:mixed", "RawEquals is not symmetric on %s and %s: %t vs %t", a.d, b.d, ra, rb)
